@@ -53,8 +53,54 @@ def names_unique(md):
     return all(len(set(v)) == len(v) for v in a.values())
 
 
+RESET_PROBES = ["`a` *b* ~~c~~ [l](/u) <x@y.z> &amp; \\* ![i](/j)\n\n- x\n> y\n\n| a |\n|---|\n| b |\n\n# h\n\n    code\n", "plain `p`"]
+
+# entered with a chain that has no active rule at all (the restore then enables nothing in it), bodies that parse
+FIXED_RESET_HISTORIES = [
+    [[3, ("name", "zero"), []], [1, ["text"], False], [10, [[0, ["backticks"], False]], 3], [7]],
+    [[3, ("name", "zero"), []], [1, ["text"], False], [10, [[0, ["emphasis", "backticks", "link"], False]], None], [7]],
+    [[3, ("name", "zero"), []], [1, ["balance_pairs", "fragments_join"], False], [10, [[0, ["emphasis", "strikethrough"], False]], 3], [7]],
+    [[3, ("name", "zero"), []], [1, ["normalize", "block", "inline", "text_join"], False], [10, [[0, ["block", "inline", "heading"], False]], None], [7]],
+    [[3, ("name", "commonmark"), []], [1, ["text", "newline", "escape", "backticks", "emphasis", "link", "image", "autolink", "html_inline", "entity"], False],
+     [10, [[0, ["backticks", "text"], False], [10, [[0, ["emphasis"], False]], 3]], None], [7]],
+    [[3, ("name", "js-default"), []], [10, [[0, ["table"], True], [1, ["emphasis", "list"], False]], 3], [10, [[1, ["table", "strikethrough"], False]], None], [7]],
+]
+
+
+def _behaviour(md):
+    out = []
+    for src in RESET_PROBES:
+        try:
+            out.append([t.as_dict() for t in guarded(md.parse, src, limit=4)])
+        except BaseException as e:  # noqa: BLE001
+            out.append(type(e).__name__)
+    return out
+
+
+def _behaviour_compiled_afresh(md):
+    """what the instance does once every ruler compiles its chains afresh from the rule flags (the compiled chains are put back
+    afterwards): whatever a ruler serves from a chain compiled earlier must be what its flags say now"""
+    rulers = (md.core.ruler, md.block.ruler, md.inline.ruler, md.inline.ruler2)
+    saved = []
+    for r in rulers:
+        saved.append(getattr(r, "__cache__", None))
+        try:
+            r.__cache__ = None
+        except Exception:  # noqa: BLE001
+            pass
+    try:
+        return _behaviour(md)
+    finally:
+        for r, c in zip(rulers, saved):
+            try:
+                r.__cache__ = c
+            except Exception:  # noqa: BLE001
+                pass
+
+
 def reset_direct(ops):
-    """None or a violation: a reset_rules block whose exit leaves other active rules than on entry"""
+    """None or a violation: a reset_rules block whose exit leaves other active rules than on entry, or after which the instance
+    parses differently from one in the same reported state (a chain compiled inside the block still being served)"""
     from markdown_it import MarkdownIt
 
     first = ops[0]
@@ -63,7 +109,15 @@ def reset_direct(ops):
         before = md.get_active_rules() if op[0] == 10 else None
         raised = None
         try:
-            c11.apply_facade_op(md, op, None)
+            if op[0] == 10:
+                with md.reset_rules():
+                    for o in op[1]:
+                        c11.apply_facade_op(md, o, None)
+                    _behaviour(md)          # the body uses the instance: its chains are compiled under the body's rule set
+                    if op[2] is not None:
+                        raise c11.UserExc()
+            else:
+                c11.apply_facade_op(md, op, None)
         except BaseException as e:  # noqa: BLE001
             raised = type(e).__name__
         if op[0] == 10 and names_unique(md):
@@ -71,6 +125,14 @@ def reset_direct(ops):
             if after != before:
                 return {"op_index": k, "raised": raised, "active_on_entry": before, "active_on_exit": after,
                         "what": "reset_rules did not restore the rule set in force on entry"}
+            if True:
+                got = _behaviour(md)
+                want = _behaviour_compiled_afresh(md)
+                if got != want:
+                    j = next(i for i, (a, b) in enumerate(zip(got, want)) if a != b)
+                    return {"op_index": k, "raised": raised, "active_rules": after, "src": RESET_PROBES[j],
+                            "after_block": str(got[j])[:500], "same_state_compiled_afresh": str(want[j])[:500],
+                            "what": "after the reset_rules block the instance reports the rules in force on entry but parses with other rules"}
     return None
 
 
@@ -267,7 +329,7 @@ def run(ctx) -> int:
             disagreements.append(ops)
         n_blocks += sum(1 for o in ops if o[0] == 10)
         n_raising += sum(1 for x in impl if x[0][0] == 1)
-    for ops in hists:
+    for ops in FIXED_RESET_HISTORIES + hists:
         d = reset_direct(ops)
         if d:
             reset_fail = (ops, d)
